@@ -34,11 +34,13 @@ Record eobs := mkEobs {
   eo_calls : list ocall       (* resource calls made during this request, in order *)
 }.
 
+(* one application and configuration, one input history, served twice by the real code:
+   by one long-lived engine (until it reports stop) and by a new engine per request over a store *)
 Record ecase := mkEcase {
   ec_app : app;
   ec_cfg : config;
-  ec_persisted : bool;
-  ec_steps : list (bytes * eobs)
+  ec_long : list (bytes * eobs);
+  ec_pers : list (bytes * eobs)
 }.
 
 Definition efuel : nat := 3000.
@@ -142,11 +144,11 @@ Fixpoint corr_pers (rs : rsrc) (c : config) (p : pworld) (steps : list (bytes * 
     then corr_pers rs c p' steps' (k + 1) else k
   end.
 
-Definition engine_corr_at (ec : ecase) : N :=
+Definition engine_corr_at (ec : ecase) : N * N :=
   let rs := app_rsrc (ec_app ec) in
-  if ec_persisted ec then corr_pers rs (ec_cfg ec) (mkPw None [] [] false) (ec_steps ec) 1
-  else corr_long rs (ec_cfg ec) (new_engine (ec_cfg ec) None [] []) (ec_steps ec) 1.
-Definition engine_corr_ok (ec : ecase) : bool := engine_corr_at ec =? 0.
+  (corr_long rs (ec_cfg ec) (new_engine (ec_cfg ec) None [] []) (ec_long ec) 1,
+   corr_pers rs (ec_cfg ec) (mkPw None [] [] false) (ec_pers ec) 1).
+Definition engine_corr_ok (ec : ecase) : bool := let '(a, b) := engine_corr_at ec in (a =? 0) && (b =? 0).
 Definition engine_mismatches (cs : list ecase) : list N := bad_indices engine_corr_ok cs.
 
 (* debugging aid: what the model predicts for a case *)
@@ -168,5 +170,5 @@ Fixpoint model_trace_pers (rs : rsrc) (c : config) (p : pworld) (inputs : list b
   end.
 
 Definition engine_violations_eng (cs : list ecase) : list (N * N) := [].
-Definition engine_first_bad (cs : list ecase) : list (N * N) :=
-  List.concat (map (fun p => if snd p =? 0 then [] else [p]) (combine (map N.of_nat (seq 0 (List.length cs))) (map engine_corr_at cs))).
+Definition engine_first_bad (cs : list ecase) : list (N * (N * N)) :=
+  List.concat (map (fun p => if engine_corr_ok (snd p) then [] else [(fst p, engine_corr_at (snd p))]) (combine (map N.of_nat (seq 0 (List.length cs))) cs)).
